@@ -166,6 +166,41 @@ func (t *GoType) MarshalJSON() ([]byte, error) {
 	})
 }
 
+// registration notes what is entered into the registry of Go types and into
+// the memo of converters while the outermost entry is being built. The entry
+// of a type is built from the entries of the types it is made of, which are
+// made and completed on the way and refer back to it (the type of a field).
+// When the outermost entry cannot be completed, everything that was entered
+// on the way goes with it: left in, it would be handed out later as if it
+// were valid, and whether a Go value is accepted would depend on what an
+// earlier evaluation in the process had offered. Guarded by goTypeMutex.
+var registration struct {
+	depth      int
+	goTypes    []reflect.Type
+	converters []reflect.Type
+}
+
+func beginRegistration() {
+	registration.depth++
+}
+
+func endRegistration(failed bool) {
+	registration.depth--
+	if registration.depth > 0 {
+		return
+	}
+	if failed {
+		for _, typ := range registration.goTypes {
+			delete(goTypeRegistry, typ)
+		}
+		for _, typ := range registration.converters {
+			delete(typeConverters, typ)
+		}
+	}
+	registration.goTypes = nil
+	registration.converters = nil
+}
+
 // newGoType creates and registers a new GoType for the type of the given object.
 // This is NOT threadsafe. The caller must be holding goTypeMutex.
 func newGoType(typ reflect.Type) (*GoType, error) {
@@ -173,6 +208,7 @@ func newGoType(typ reflect.Type) (*GoType, error) {
 	if goType, ok := goTypeRegistry[typ]; ok {
 		return goType, nil
 	}
+	beginRegistration()
 
 	// Just like Go does, we want to provide some equivalence between a type and
 	// a pointer to that type. The "indirect type" is the opposite form from
@@ -208,6 +244,7 @@ func newGoType(typ reflect.Type) (*GoType, error) {
 
 	// Add the new type to the registry before calling newGoType recursively
 	goTypeRegistry[typ] = goType
+	registration.goTypes = append(registration.goTypes, typ)
 
 	// A type that cannot be completed is taken out again: left in the
 	// registry, the half-built type (no attributes) would be handed out as if
@@ -217,6 +254,7 @@ func newGoType(typ reflect.Type) (*GoType, error) {
 		if !registered {
 			delete(goTypeRegistry, typ)
 		}
+		endRegistration(!registered)
 	}()
 
 	// Register the indirect type as well (recursive call!)
